@@ -40,9 +40,7 @@ def verify(sdir, props, tier="quick"):
         rc0, out0 = run([PY, "demo_seeded.py"], repo, {"PYTHONPATH": repo})
         rc, out = run(["git", "apply", os.path.join(sdir, "patch.diff")], repo)
         if rc:
-            print("PATCH DOES NOT APPLY:", out)
-            meta["applies"] = False
-            json.dump(meta, open(meta_path, "w"), indent=1)
+            print("PATCH DOES NOT APPLY to the current /repo (meta.json left untouched):", out)
             return meta
         rcs, outs = run([PY, "-m", "pytest", "-q", "-p", "no:cacheprovider", "--timeout=900"], repo, {"PYTHONPATH": repo})
         rc1, out1 = run([PY, "demo_seeded.py"], repo, {"PYTHONPATH": repo})
